@@ -12,6 +12,7 @@ import (
 	"sync"
 
 	"github.com/bradenaw/juniper/container/tree"
+	"github.com/bradenaw/juniper/iterator"
 
 	"verif/tk"
 	"verif/vkit"
@@ -50,7 +51,7 @@ func (s seqRunner) IntSet(cfg tk.Config[int, struct{}])       { runHistory(s.c, 
 func (s seqRunner) StringSet(cfg tk.Config[string, struct{}]) { runHistory(s.c, cfg) }
 
 func sequential(r *vkit.Report) {
-	n := r.Scale(1600, 40000)
+	n := r.Scale(5000, 60000)
 	r.Cases("hist", n, runtime.GOMAXPROCS(0), func(c *vkit.Case) {
 		tk.ForConfig(c.Index%tk.NConfigs, false, seqRunner{c})
 	})
@@ -181,7 +182,10 @@ func (d *driver[K, V]) put(j int) {
 	d.valID++
 	v := d.cfg.ValOf(d.valID)
 	d.note("Put", j, d.valID)
-	d.sut().Put(k, v)
+	if p := vkit.Try(func() { d.sut().Put(k, v) }); p != nil {
+		d.fail("panic", fmt.Sprintf("%s: Put(%v) panicked: %s (%s)", d.cfg.Name, k, p.Msg, p.JuniperFrame()))
+		return
+	}
 	d.model.Put(k, v)
 	d.trackPut(j)
 	d.checkLen("Put")
@@ -191,7 +195,10 @@ func (d *driver[K, V]) put(j int) {
 func (d *driver[K, V]) del(j int) {
 	k := d.cfg.KeyOf(j)
 	d.note("Delete", j, 0)
-	d.sut().Delete(k)
+	if p := vkit.Try(func() { d.sut().Delete(k) }); p != nil {
+		d.fail("panic", fmt.Sprintf("%s: Delete(%v) panicked: %s (%s)", d.cfg.Name, k, p.Msg, p.JuniperFrame()))
+		return
+	}
 	d.model.Delete(k)
 	d.trackDelete(j)
 	d.checkLen("Delete")
@@ -204,7 +211,12 @@ func (d *driver[K, V]) get(j int) {
 	want, present := d.model.Get(k)
 	s := d.sut()
 	d.r.Eval(2)
-	if got := s.Contains(k); got != present {
+	var got0 bool
+	if p := vkit.Try(func() { got0 = s.Contains(k) }); p != nil {
+		d.fail("panic", fmt.Sprintf("%s: Contains(%v) panicked: %s (%s)", d.cfg.Name, k, p.Msg, p.JuniperFrame()))
+		return
+	}
+	if got := got0; got != present {
 		d.fail("contains", fmt.Sprintf("%s: Contains(%v) = %v, ideal map says %v", d.cfg.Name, k, got, present))
 	}
 	if !s.IsSet() {
@@ -294,17 +306,23 @@ func (d *driver[K, V]) rangeProbe(narrow bool) {
 	plain := d.rnd.Bool(0.5)
 	d.note("Range", a, b)
 	want := d.model.Range(lo, hi)
-	it := d.sut().Iter(lo, hi, reverse, plain)
 	limit := len(want) + 3
 	var got []tk.KV[K, V]
 	ended := false
-	for i := 0; i < limit; i++ {
-		kv, ok := it.Next()
-		if !ok {
-			ended = true
-			break
+	var it iterator.Iterator[tk.KV[K, V]]
+	if p := vkit.Try(func() {
+		it = d.sut().Iter(lo, hi, reverse, plain)
+		for i := 0; i < limit; i++ {
+			kv, ok := it.Next()
+			if !ok {
+				ended = true
+				break
+			}
+			got = append(got, kv)
 		}
-		got = append(got, kv)
+	}); p != nil {
+		d.fail("panic", fmt.Sprintf("%s: range [%v, %v] reverse=%v panicked: %s (%s)", d.cfg.Name, lo, hi, reverse, p.Msg, p.JuniperFrame()))
+		return
 	}
 	if reverse {
 		for i, j := 0, len(want)-1; i < j; i, j = i+1, j-1 {
